@@ -1,29 +1,8 @@
-// T-std (diff groups): assumed specifications of std items used by src/diff_parser.rs that vstd
-// (0.2026.09.13) leaves unspecified. Written from the std documentation; general, not proof-specific.
-// The file that includes this needs `#![feature(allocator_api)]` and `use std::alloc::Allocator;`.
-
-// Vec::pop_if — std doc: "Removes and returns the last element from a vector if the predicate
-// returns true, or None if the predicate returns false or the vector is empty (the predicate will
-// not be called then)." The predicate receives `&mut T` and may change the element; `*final(x)` is
-// the element after the call, so a changed element is what stays in / leaves the vector.
-pub assume_specification<T, A: Allocator, F: FnOnce(&mut T) -> bool>[ Vec::<T, A>::pop_if ](v: &mut Vec<T, A>, f: F) -> (r: Option<T>)
-    requires
-        old(v)@.len() > 0 ==> forall|x: &mut T| *x == old(v)@.last() ==> call_requires(f, (x,)), // [std.pop_if.pre.callable]
-    ensures
-        old(v)@.len() == 0 ==> r is None && final(v)@ == old(v)@,
-        old(v)@.len() > 0 ==> exists|x: &mut T, b: bool| *x == old(v)@.last() && #[trigger] call_ensures(f, (x,), b)
-            && (b ==> r == Some(*final(x)) && final(v)@ == old(v)@.drop_last())
-            && (!b ==> r is None && final(v)@ == old(v)@.drop_last().push(*final(x))),
-;
-
-// <[T]>::swap — std doc: "Swaps two elements in the slice. Panics if a or b are out of bounds."
-pub assume_specification<T>[ <[T]>::swap ](s: &mut [T], a: usize, b: usize)
-    requires
-        a < old(s)@.len(), // [std.swap.pre.a_in_bounds]
-        b < old(s)@.len(), // [std.swap.pre.b_in_bounds]
-    ensures
-        final(s)@ == old(s)@.update(a as int, old(s)@[b as int]).update(b as int, old(s)@[a as int]),
-;
+// T-std (group diffranges): assumed specifications of std items used by `line_diff`
+// (src/diff_parser.rs) that vstd (0.2026.09.13) leaves unspecified. Written from the std
+// documentation; general, not proof-specific.
+// (The `Vec::pop_if` / `<[T]>::swap` specs that the previous `push_or_merge_range` needed are gone:
+// the repaired function uses `Vec::remove` / `Vec::insert`, which vstd specifies.)
 
 // Option::is_none_or — std doc: "Returns true if the option is a None or the value inside of it
 // matches a predicate."
@@ -33,4 +12,28 @@ pub assume_specification<T, F: FnOnce(T) -> bool>[ Option::<T>::is_none_or ](o: 
     ensures
         o is None ==> r,
         o matches Some(x) ==> call_ensures(f, (x,), r),
+;
+
+/// byte offsets at which the chars of a string start (`str::char_indices`), uninterpreted
+pub uninterp spec fn char_offsets_spec(s: Seq<char>) -> Seq<usize>;
+
+/// E3 (iterator chain -> shim): `s.char_indices().map(|(offset, _)| offset).collect::<Vec<usize>>()`.
+/// The body is the identical std expression. ASSUMED (std doc of `char_indices`: "an iterator over
+/// the chars of a string slice, and their positions"; positions are byte indices *into* the slice):
+/// every offset is `< s.len()`, and a string without chars has no bytes. ASSUMED (std doc of
+/// `slice::from_raw_parts` / allocation: a slice is at most `isize::MAX` bytes): `s.len() <= isize::MAX`.
+#[verifier::external_body]
+pub fn verif_char_byte_offsets(s: &str) -> (r: Vec<usize>)
+    ensures
+        r@ == char_offsets_spec(s@),
+        forall|i: int| 0 <= i < r@.len() ==> (#[trigger] r@[i]) < s.len(),
+        r@.len() == 0 ==> s.len() == 0,
+        s.len() <= isize::MAX,
+{ s.char_indices().map(|(offset, _)| offset).collect() }
+
+// Option::<&T>::copied — std doc: "Maps an Option<&T> to an Option<T> by copying the contents of the option."
+pub assume_specification<'a, T: Copy>[ Option::<&'a T>::copied ](o: Option<&'a T>) -> (r: Option<T>)
+    ensures
+        o is None ==> r is None,
+        o matches Some(x) ==> r == Some(*x),
 ;
